@@ -114,7 +114,7 @@ type Runner struct {
 	Hangs   int
 }
 
-const waitLimit = 20 * time.Second
+const waitLimit = 10 * time.Second
 
 func (rn *Runner) opOf(p *spb.AFTOperation) abs.Op {
 	if o, ok := rn.ops[p]; ok {
@@ -483,7 +483,7 @@ func (rn *Runner) emitState(ev Event) {
 
 // Step executes one input.
 func (rn *Runner) Step(in Input) (err error) {
-	if rn.dead && in.A != "sreset" {
+	if (rn.dead && in.A != "sreset") || rn.Hangs >= ribdrv.MaxHangs {
 		return nil
 	}
 	rn.Steps++
